@@ -140,7 +140,7 @@ CLAIMS["C20"] = dict(
          "translation and the checking constructor succeed, keeps all leaves in order, and otherwise returns that very "
          "error (outcome table over who fails and how). Decided by evaluating the functions (THIR) on one-level model "
          "values for all 30 variants. On ~75 whole descriptors of every output type (parsed by evaluating the parser): "
-         "for_each_key and iter_pk visit exactly the multiset of key names of the text and for_each_key stops at the first "
+         "for_each_key and iter_pk visit exactly the multiset of key names of the text and for_each_key reports a "
          "refusal; translate_pk with the identity gives an equal descriptor, with a renaming the descriptor of the "
          "substituted text, twice equals once with the composed mapping, and a mapping failing on any one key fails with "
          "that error.",
